@@ -474,7 +474,22 @@ pub fn install_quiet_panic_hook() {
             } else {
                 "?".to_string()
             };
-            LAST_PANIC.with(|p| *p.borrow_mut() = Some(format!("{} @ {}", msg.lines().next().unwrap_or(""), loc)));
+            // which command the worker had dequeued and not yet answered when the panic happened (narrows the
+            // signature: the same arithmetic message in the same file during another command is another finding)
+            let during = super::world::try_with(|w| {
+                let mut cur: Option<String> = None;
+                for e in w.events.iter() {
+                    if e.kind == "worker_dequeued" {
+                        cur = Some(e.text.clone());
+                    } else if e.kind == "worker_acked" {
+                        cur = None;
+                    }
+                }
+                cur
+            })
+            .flatten();
+            let during = during.map(|d| format!(" [during {}]", d)).unwrap_or_default();
+            LAST_PANIC.with(|p| *p.borrow_mut() = Some(format!("{}{} @ {}", msg.lines().next().unwrap_or(""), during, loc)));
             if std::env::var("MC_VERBOSE_PANICS").is_ok() {
                 eprintln!("panic: {} @ {}", msg, loc);
             }
